@@ -62,6 +62,29 @@ theorem swap_bisection (s : St α) : (swapIfNeeded s).bisection = s.bisection :=
 theorem swap_c (s : St α) : (swapIfNeeded s).c = s.c := by
   rcases swap_cases s with ⟨e, _⟩ | ⟨e, _⟩ <;> rw [e]
 
+/-! ### the NaN guard -/
+
+theorem isNan_false (dx : α) : isNan dx = false := by simp [isNan]
+
+/-- Over an ordered field the test of `get_next_abscissa` is the five-clause test. -/
+theorem useBisect_eq (s : St α) (dx : α) : useBisect s dx = useBisect5 s dx := by
+  simp [useBisect, isNan_false]
+
+/-! ### the sign test -/
+
+/-- Over an ordered field the sign comparison `_opposite_signs` is the old product test. -/
+theorem oppSign_iff (x y : α) : oppSign x y = true ↔ x * y < 0 := by
+  unfold oppSign
+  simp only [Bool.or_eq_true, Bool.and_eq_true, decide_eq_true_eq]
+  rw [mul_neg_iff]
+  constructor
+  · rintro (⟨h1, h2⟩ | ⟨h1, h2⟩)
+    · right; exact ⟨h1, h2⟩
+    · left; exact ⟨h2, h1⟩
+  · rintro (⟨h1, h2⟩ | ⟨h1, h2⟩)
+    · right; exact ⟨h2, h1⟩
+    · left; exact ⟨h1, h2⟩
+
 /-! ### `__init__` -/
 
 theorem init_some {start stop fS fE eps : α} {s : St α}
@@ -75,7 +98,7 @@ theorem init_some {start stop fS fE eps : α} {s : St α}
   split at h; · exact absurd h (by simp)
   rename_i h1 h2
   have h1 : start ≤ stop := not_not.mp h1
-  have h2 : fS * fE < 0 := not_not.mp h2
+  have h2 : fS * fE < 0 := (oppSign_iff fS fE).mp (not_not.mp h2)
   simp only [Option.some.injEq] at h
   subst h
   set s0 : St α := { eps := eps, a := start, b := stop, fa := fS, fb := fE,
@@ -111,7 +134,7 @@ theorem stepDx_between (s : St α) :
       have := abs_nonneg (s.a - s.b)
       linarith
   · simp only [hb]
-    simp only [useBisect, Bool.or_eq_true, decide_eq_true_eq, not_or, absv_eq_abs,
+    simp only [useBisect_eq, useBisect5, Bool.or_eq_true, decide_eq_true_eq, not_or, absv_eq_abs,
       Bool.not_eq_true] at hb
     obtain ⟨⟨⟨⟨⟨h1, h2⟩, _⟩, _⟩, _⟩, _⟩ := hb
     have h1 : |dx| < |3 * (s.a - s.b) / 4| := not_le.mp h1
@@ -171,8 +194,13 @@ theorem updateInterval_cases (s : St α) (x y : α) :
     (updateInterval s x y = { s with a := x, fa := y } ∧ 0 ≤ s.fa * y) := by
   unfold updateInterval
   by_cases h : s.fa * y < 0
-  · left; simp [h]
-  · right; simp [h]; exact not_lt.mp h
+  · left; simp [(oppSign_iff s.fa y).mpr h, h]
+  · right
+    have h' : oppSign s.fa y = false := by
+      cases hh : oppSign s.fa y
+      · rfl
+      · exact absurd ((oppSign_iff s.fa y).mp hh) h
+    simp [h']; exact not_lt.mp h
 
 /-- Key sign lemma: replacing the end whose ordinate has the sign of `y` keeps the bracket. -/
 theorem sign_keep {fa fb y : α} (hs : fa * fb ≤ 0) (hb : |fb| ≤ |fa|) (hy : 0 ≤ fa * y) :
